@@ -16,6 +16,7 @@ This wrapper makes the predecessor a dimension of the space:
     oracle     (a) the wrapped sub-check's own oracle on the second case (reference model / differential, unchanged);
                (b) the digest of the observed behaviour of the second case equals the digest it had when it ran on
                    its own while the alphabet was selected (only for cases whose digest was stable over two such runs)
+               Between the two runs the objects the first case built are scribbled over in place (mc/scribble.py).
 
 Only cases whose own run is clean are selected, so a discrepancy here is a dependence on the predecessor (what fails
 on its own is the wrapped sub-check's business, known findings included)."""
@@ -153,7 +154,11 @@ class CrossTalk(SubCheck):
     def run(self, case):
         out = Outcome()
         inner = self.inner
-        inner.run(self.member(case["first_index"]))
+        first = inner.run(self.member(case["first_index"]))
+        if first.leftovers:
+            from mc import scribble
+            scribble.scribble(inner.svg, first.leftovers)       # the first caller goes on using what it was given
+            first.leftovers = []
         o = inner.run(self.member(case["second_index"]))
         out.traces = 2
         out.transitions = 1
